@@ -44,7 +44,7 @@ def _exec(args):
         # containers where NumPy on its own would pick float64: items in [2^63, 2^64) next to int64 items, nothing wider
         band = [(1 << 63) + 1, 5, (1 << 64) - 1, rng.randint(1 << 63, (1 << 64) - 1), -1 if s else 1, rng.randint(0, 1 << 62)]
         rng.shuffle(band)
-        out.append(x_store.observe(fx, np, t, ('trunc', o), band, rng.choice(['list', 'tuple', 'nested-list', 'nested-tuple', 'list-1xk', 'list-3d']),
+        out.append(x_store.observe(fx, np, t, ('trunc', o), band, rng.choice(['list', 'tuple', 'nested-list', 'nested-tuple', 'list-1xk', 'list-3d', 'obj-2d-F', 'obj-2d-T', 'obj-3d-swap']),
                                    rng.choice(['ctor', 'set_val']), ['C18'], True, raw=True))
         # ... and containers whose items ALL lie in [2^63, 2^64) (NumPy picks uint64 for them)
         top = [(1 << 63), (1 << 64) - 1, (1 << 63) + 5, rng.randint(1 << 63, (1 << 64) - 1)][:rng.choice([1, 2, 4])]
@@ -54,7 +54,7 @@ def _exec(args):
             out.append(x_store.observe(fx, np, t, ('trunc', o), [F(b) for b in top], 'pyint-' + (rng.choice(['list', 'tuple', 'list-1xk']) if len(top) != 1 else 'list'),
                                        rng.choice(['ctor', 'call', 'set_val']), ['C18'], True))
         if f <= 8:
-            out.append(x_store.observe(fx, np, t, ('trunc', o), [F(b) for b in band], 'pyint-' + rng.choice(['list', 'nested-list', 'nested-tuple', 'list-1xk']),
+            out.append(x_store.observe(fx, np, t, ('trunc', o), [F(b) for b in band], 'pyint-' + rng.choice(['list', 'nested-list', 'nested-tuple', 'list-1xk', 'obj-2d-F', 'obj-2d-T', 'obj-3d-swap']),
                                        rng.choice(['ctor', 'call', 'set_val']), ['C18'], True))
         inr = [c for c in codes if lo <= c <= hi]
         out.append(x_store.observe(fx, np, t, ('trunc', o), codes[:12], rng.choice(['list', 'ndarray-obj']), rng.choice(['ctor', 'set_val']), ['C18'], True, raw=True))
